@@ -157,6 +157,22 @@ func main() {
 			lines(os.Stdout, num())
 		case "el":
 			lines(os.Stderr, num())
+		case "wf":
+			// wait until the file exists (polling), at most the given number of milliseconds; exit 98 when it never shows up
+			limit, err := strconv.Atoi(arg(2))
+			if err != nil {
+				os.Exit(98)
+			}
+			deadline := time.Now().Add(time.Duration(limit) * time.Millisecond)
+			for {
+				if _, err := os.Stat(arg(1)); err == nil {
+					break
+				}
+				if time.Now().After(deadline) {
+					os.Exit(98)
+				}
+				time.Sleep(20 * time.Millisecond)
+			}
 		case "co":
 			os.Stdout.Close()
 		case "ce":
